@@ -287,6 +287,38 @@ def dcstep_vcs(tier='quick'):
     return vcs
 
 
+# --------------------------------------------------------------------------------------------- dcstep: clauses for callers
+def contract_clauses(i, o, B):
+    """clauses of dcstep in a form a caller can ASSUME on havocked results o after a call with arguments i (dicts name -> term):
+    proved below (mt/dcstep/contract_*) with o := the symbolic results of the real body.  Division-free: for dx != 0,
+    sgnd < 0 <=> dp*dx < 0.  B is the linear coefficient of the sampled quadratic qa t^2 + B t + qc in the last clause."""
+    nz = f'(not (= {i["dx"]} 0.0))'
+    hi = f'(> {i["fp"]} {i["fx"]})'
+    opp = f'(< (* {i["dp"]} {i["dx"]}) 0.0)'
+    upd = {'sty': f'(ite {hi} {i["stp"]} (ite {opp} {i["stx"]} {i["sty"]}))', 'fy': f'(ite {hi} {i["fp"]} (ite {opp} {i["fx"]} {i["fy"]}))',
+           'dy': f'(ite {hi} {i["dp"]} (ite {opp} {i["dx"]} {i["dy"]}))', 'stx': f'(ite {hi} {i["stx"]} {i["stp"]})', 'fx': f'(ite {hi} {i["fx"]} {i["fp"]})',
+           'dx': f'(ite {hi} {i["dx"]} {i["dp"]})'}
+    q = lambda t: f'(+ (* qa {t} {t}) (* {B} {t}) qc)'
+    dq = lambda t: f'(+ (* 2.0 qa {t}) {B})'
+    samples = AND(*[f'(= {i[f_]} {q(i[t_])})' for f_, t_ in (('fx', 'stx'), ('fp', 'stp'))], *[f'(= {i[d_]} {dq(i[t_])})' for d_, t_ in (('dx', 'stx'), ('dp', 'stp'))])
+    return {
+        'bracket': IMP(nz, AND(*[f'(= {o[k]} {v})' for k, v in upd.items()])),
+        'brackt': IMP(nz, f'(= {o["brackt"]} (or {i["brackt"]} {hi} (and (not {hi}) {opp})))'),
+        'quadratic': IMP(AND(nz, '(> qa 0.0)', f'(not (= {i["stx"]} {i["stp"]}))', samples, OR(hi, opp)), f'(= (* 2.0 qa {o["stp"]}) (- {B}))'),
+    }
+
+
+def contract_vcs():
+    dc = dcstep()
+    names = {k: k for k in ALL}
+    cl = contract_clauses(names, dc['out'], 'qB')
+    decl = DECLS + [('qa', 'Real'), ('qB', 'Real'), ('qc', 'Real')]
+    about = 'clauses of dcstep that mt/do_get assumes on the results of its dcstep call in the convex-quadratic scenario (double treated as real)'
+    text = {'bracket': 'bracket update in division-free form (dx != 0: sgnd < 0 <=> dp*dx < 0)', 'brackt': 'brackt\' = brackt or case 1 or case 2, division-free form',
+            'quadratic': 'on two distinct samples of ANY quadratic qa t^2 + B t + qc with qa > 0, cases 1 and 2 return its minimiser: 2 qa stp\' = -B'}
+    return [mkvc(f'mt/dcstep/contract_{k}: {text[k]}', decl, [], v, about, dc['src']) for k, v in cl.items()]
+
+
 # --------------------------------------------------------------------------------------------- (c) dcstep on a convex quadratic
 def convexq_vcs():
     """phi(t) = a t^2 + b t + c, a > 0, b < 0.  dcstep is handed samples (t, q(t), q'(t)) of q = phi (stage 2, or stage 1 with
@@ -415,6 +447,8 @@ def build_do_get():
         step_smt.doget_setup(wp)
         wp.assume('(< g0d 0.0)')
         wp.obs, wp.upd, wp.inv_calls, wp.head = [], [], 0, None
+        for nm in ('qa', 'qb', 'qc'):
+            wp.const(nm, 'Real', 'double')           # the convex quadratic of the scenario (constrained only inside that obligation)
 
     def inv(wp):
         e = wp.env
@@ -450,16 +484,42 @@ def build_do_get():
                           f'(=> {o["guard"]} (= {e[k].t} {v}))')
             wp.oblige('next_step: the next trial step is the reference\'s (bisection if the bracket did not shrink by 0.66, clamp to [stpmin, stpmax], fallback to stx when no progress is possible)',
                       f'(=> {o["guard"]} (and (= {wp.upd[0][1]} {nxt}) (= {e["stp"].t} {nxt})))')
+        # ---- scenario (towards "More-Thuente succeeds on convex quadratics"): phi(t) = qa t^2 + qb t + qc, FIRST iteration (the loop-head state is
+        # the START state), the first trial step t0 does not pass the convergence test and overshoots (dcstep case 1 or 2): the step evaluated next is
+        # EXACTLY the minimiser of the function dcstep was handed (phi, or the modified function: linear coefficient (1-c1) qb), provided it lies in
+        # [stpmin, stpmax].  By convexq/dcstep_phi|psi/armijo_strong_wolfe that point passes the convergence test at the top of the next iteration
+        # (phi: for c1 <= 1/2; modified function: for every 0 < c1 < c2 < 1).  dcstep is used through its proved clauses mt/dcstep/contract_*.
+        t0 = 't0'
+        start = {'stage': '1', 'stx': '0.0', 'sty': '0.0', 'fx': 'f_0', 'fy': 'f_0', 'gx': 'g0d', 'gy': 'g0d', 'stmin': '0.0', 'stmax': f'(+ {t0} (* 4.0 {t0}))',
+                 'width': f'(- {smax} stpmin)', 'width1': f'(* 2.0 (- {smax} stpmin))', 'stp': t0}
+        S = [NOT(H['brackt'].t)] + [f'(= {H[k].t} {v})' for k, v in start.items()]
+        S += ['(> qa 0.0)', '(= f_0 qc)', '(= g0d qb)', f'(= {H["f"].t} (+ (* qa {t0} {t0}) (* qb {t0}) qc))', f'(= {H["g"].t} (+ (* 2.0 qa {t0}) qb))']
+        B = f'(ite {ref["mod"]} (* (- 1.0 c1) qb) qb)'
+        for o in wp.obs:
+            cl = contract_clauses(o['ins'], o['outs'], B)
+            i = o['ins']
+            overshoot = f'(or (> {i["fp"]} {i["fx"]}) (< (* {i["dp"]} {i["dx"]}) 0.0))'
+            inside = f'(and (<= (* 2.0 qa stpmin) (- {B})) (<= (- {B}) (* 2.0 qa {smax})))'
+            # no bisection in the first iteration (t0 < 0.66 * width1 = 1.32 (stpmax - stpmin), about 6e14) and xtol = epsilon0 < 1
+            small = f'(and (< {t0} (* {P66} {H["width1"].t})) (< {xtol} 1.0))'
+            wp.oblige('convexq_second_trial: on a convex quadratic, first iteration, t0 fails the convergence test and overshoots (dcstep case 1 / 2), minimiser of the '
+                      'interpolated function inside [stpmin, stpmax], t0 < 1.32 (stpmax - stpmin), epsilon0 < 1: the step evaluated next is exactly that minimiser (2 a stp = -B)',
+                      IMP(AND(o['guard'], *S, *cl.values(), overshoot, inside, small), f'(= (* 2.0 qa {wp.upd[0][1]}) (- {B}))'))
+            wp.oblige('convexq_scenario_canary (the negated claim is the scenario itself: must be satisfiable)', NOT(AND(o['guard'], *S, *cl.values(), overshoot, inside, small)))
         return []
     inv = step_smt.with_havoc(inv, HAVOC)
     inv.body_post = body_post
-    return step_smt.mk('mt/do_get', MT, 'lsearchk_morethuente_t::do_get', 'do_get', setup, {1: inv},
+    r = step_smt.mk('mt/do_get', MT, 'lsearchk_morethuente_t::do_get', 'do_get', setup, {1: inv},
                        'More-Thuente do_get: stage logic and step bookkeeping against MINPACK-2 dcsrch (double treated as real)', post=lambda wp, rv: [],
                        calls=[(r'^dcstep\|', h_dcstep_obs), (r'^stpmax\|', adv_smt.h_stpmax)], members=[(r'^stpmax\|', adv_smt.h_stpmax), (r'^update\|.*lsearchk', h_update_obs)])
+    for v in r[0]:
+        if 'convexq_scenario_canary' in v.name:
+            v.expect = 'sat'        # the negated claim is the scenario itself: it must be satisfiable
+    return r
 
 
 def build(tier='quick'):
-    vcs = dcstep_vcs(tier) + convexq_vcs()
+    vcs = dcstep_vcs(tier) + contract_vcs() + convexq_vcs()
     fns = [dcstep()['fn']]
     r = build_do_get()
     vcs += r[0]
@@ -477,6 +537,6 @@ if __name__ == '__main__':
     only = [a for a in sys.argv[1:] if a not in ('-v', '--thorough')]
     for v in build('thorough' if '--thorough' in sys.argv else 'quick')[0]:
         if not only or only[0] in v.name:
-            v.timeout = 20
+            v.timeout = v.timeout if '--thorough' in sys.argv else 20
             ob = v.verify()
             print(ob['status'], ob['backend'], {k: round(s, 2) for k, s in ob['seconds'].items()}, v.name)
